@@ -437,7 +437,7 @@ func genSched(g *hx.Gen, wantHang bool) (cls string, addrs []addr, toks []string
 }
 
 func gen(g *hx.Gen) {
-	n := g.Count(260, 12000)
+	n := g.Count(200, 10000)
 	for i := 0; i < n; i++ {
 		wantHang := i%5 == 0
 		cls, addrs, toks := genSched(g, wantHang)
@@ -464,10 +464,12 @@ type sim struct {
 	pendingLock    int         // Close / Listen calls that have not returned (they need the forward-list mutex)
 	pendingAccepts map[int]int // listener step -> Accept calls that have not returned
 	sent, replied  int
+	confirms       int // channelOpenConfirm packets seen
+	acceptConns    int // Accept calls that returned a connection
 	dead, waitDone bool
-	listeners     map[int]net.Listener // by step index of the listen call
-	closeRet      map[int]bool         // listener step -> its Close has returned
-	policy        map[string]reqPolicy
+	listeners      map[int]net.Listener // by step index of the listen call
+	closeRet       map[int]bool         // listener step -> its Close has returned
+	policy         map[string]reqPolicy
 }
 
 type reqPolicy struct {
@@ -503,6 +505,7 @@ func (s *sim) onWrite(b []byte) {
 		id := binary.BigEndian.Uint32(b[1:])
 		s.mu.Lock()
 		s.replied++
+		s.confirms++
 		s.ev = append(s.ev, fmt.Sprintf("F%d=c", id))
 		s.mu.Unlock()
 	case 92:
@@ -541,6 +544,9 @@ func (s *sim) snapshot() snap {
 		}
 	}
 	if !locked && (s.pendingLock > 0 || queued > 0) { // Lock() succeeds; queued opens get processed
+		sn.canMove = true
+	}
+	if s.confirms != s.acceptConns { // an Accept has written its confirmation and is about to return
 		sn.canMove = true
 	}
 	if !s.dead && !sn.idle { // the mux loop still has packets to dispatch
@@ -601,6 +607,9 @@ func (s *sim) call(kind int, f func() string) {
 		e := f()
 		s.mu.Lock()
 		s.ev = append(s.ev, e)
+		if kind >= 0 && strings.Contains(e, "c") && !strings.Contains(e, "err") {
+			s.acceptConns++
+		}
 		s.pendingCalls--
 		if kind < 0 {
 			s.pendingLock--
